@@ -4,6 +4,7 @@
 //   --prop C02 : totality + memory safety + reuse after failure (sanitizer is the
 //                main oracle; follow-up behaviour is checked against the reference)
 //   --prop C03 : value read back through the accessor API == denoted value
+#include <cmath>
 #include <fstream>
 #include <sstream>
 
@@ -658,6 +659,43 @@ int main(int argc, char** argv) {
                    int k = (int)r.range(1, 3);
                    for (int j = 0; j < k; j++) t = jm::mutate(t, r);
                    one_input(t);
+                 }});
+    // numbers around the overflow threshold 2^1024-2^970 and other range edges, in every spelling family, nested and at the root
+    S.push_back({"number_range_edges", 4000, 400000, [](uint64_t, vf::Rng& r) {
+                   static std::string T;
+                   if (T.empty()) {
+                     char b[400];
+                     snprintf(b, sizeof b, "%.0Lf", ldexpl(1.0L, 1024) - ldexpl(1.0L, 970));  // exact: 309 digits
+                     T = b;
+                   }
+                   size_t n = r.range(1, r.coin() ? 22 : 40);
+                   std::string m = T.substr(0, n);
+                   int d = (int)r.range(0, 4) - 2;
+                   int last = (m.back() - '0') + d;
+                   m.back() = (char)('0' + (last < 0 ? 0 : last > 9 ? 9 : last));
+                   long e10 = 309 - (long)n;
+                   std::string t;
+                   char eb[24];
+                   switch (r.below(5)) {
+                     case 0: snprintf(eb, sizeof eb, "%c%s%ld", r.coin() ? 'e' : 'E', r.below(3) ? "" : "+", e10); t = m + eb; break;          // integer mantissa
+                     case 1: snprintf(eb, sizeof eb, "e%ld", 308L); t = m.substr(0, 1) + "." + (n > 1 ? m.substr(1) : "0") + eb; break;  // d.ddd e308
+                     case 2: snprintf(eb, sizeof eb, "e%ld", e10 + (long)n); t = "0." + m + eb; break;
+                     case 3: {  // other edges: subnormal threshold, tiny, huge exponents, long zeros
+                       static const char* x[] = {"4.9406564584124654e-324", "2.4703282292062327e-324", "2.4703282292062328e-324", "1e-400", "1e400", "-1e400",
+                                                 "0e99999", "1e-99999", "123456789012345678901234567890e280", "0.000000000000000000000000000001e339",
+                                                 "9007199254740993", "9007199254740992.5", "1.00000000000000011102230246251565404236316680908203125"};
+                       t = x[r.below(sizeof x / sizeof *x)];
+                       break;
+                     }
+                     default: t = m + std::string(r.below(30), '0') + (r.coin() ? ".0" : ""); break;  // plain long integers (finite)
+                   }
+                   if (r.below(3) == 0) t = "-" + t;
+                   switch (r.below(4)) {
+                     case 0: one_input(t); break;
+                     case 1: one_input("[" + t + "]"); break;
+                     case 2: one_input("{\"k\":" + t + "}"); break;
+                     default: one_input("[0, " + t + " ,1]"); break;
+                   }
                  }});
     S.push_back({"hostile_shapes", 2000, 100000, [](uint64_t, vf::Rng& r) {
                    size_t maxlen = r.below(50) == 0 ? (vf::args().thorough ? 300000 : 40000) : 300;
